@@ -543,4 +543,99 @@ def run(tier):
                           "%s matrixSslProcessedData(): the offset of the move is not taken from ssl->inProcessedOff" % fn11.relfile, file=fn11.relfile, line=0)
         res.instance("C16.R11", "matrixSslProcessedData: the move's offset comes from the recorded position", uses, finding=f11)
     res.floor("C16.R11", 3)
+    # ------------------------------------------------------------------ R12
+    # 'a DTLS handshake between correctly configured peers completes': every arm of the ChangeCipherSpec handling that turns a
+    # full handshake into an abbreviated one (a ticket `in limbo` turns out to be accepted, RFC 5077 3.4) is reachable when the
+    # active version is DTLS.  The search starts at the case label, assumes the facts that guard the arm and the DTLS version
+    # test, and prunes every edge whose condition those facts decide the other way: the datagram-only `out of order` drop in
+    # front of the arms must let exactly these states through.
+    res.rule("C16.R12", "DTLS: the ChangeCipherSpec arms that reveal an accepted session ticket are reachable under the DTLS version test")
+    n12 = 0
+    dl = prog.by_name.get("matrixSslDecodeTls12AndBelow")
+    if dl and prog.defined("USE_STATELESS_SESSION_TICKETS") and prog.defined("USE_DTLS"):
+        import re as _re
+        fn12 = dl[0]
+        gf12 = cu.guard_facts(fn12)
+        LIMBO = prog.const("SESS_TICKET_STATE_IN_LIMBO")
+        RES = prog.const("SSL_FLAGS_RESUMED")
+        try:
+            DTLSMASK = prog.const("v_dtls_any")
+        except Exception:
+            DTLSMASK = None
+        if DTLSMASK is None:
+            raise AnalysisBroken("C16.R12: value of v_dtls_any not known")
+        bmap = {b["id"]: b for b in fn12.blocks}
+        # case label of the CCS record type in the switch on ssl->rec.type
+        starts = []
+        for b in fn12.blocks:
+            t = b.get("term")
+            if t and t.get("k") == "switch" and "rec.type" in cu.ftext(t.get("c") or {}):
+                for s_ in b["succ"]:
+                    if s_.get("case") == prog.const("SSL_RECORD_TYPE_CHANGE_CIPHER_SPEC"):
+                        starts.append(s_["b"])
+        if not starts:
+            raise AnalysisBroken("C16.R12: the ChangeCipherSpec case of the record type switch was not found")
+
+        def decided(txt, tr, G, hs):
+            """True/False when the assumed facts decide atom (txt, tr) the same/other way, None when they do not."""
+            if (txt, tr) in G:
+                return True
+            if (txt, not tr) in G:
+                return False
+            m = _re.fullmatch(r"\(?ssl->hsState (==|!=) (\d+)\)?", txt)
+            if m and hs is not None:
+                v = (hs == int(m.group(2))) == (m.group(1) == "==")
+                return v == tr
+            return None
+
+        for b in fn12.blocks:
+            for i, ln, x in cu.block_exprs(b):
+                if not any(m.get("k") == "bin" and m["op"] == "|=" and cu.ftext(strip(m["l"]) or {}) == "ssl->flags"
+                           and (strip(m["r"]) or {}).get("k") == "int" and strip(m["r"])["v"] == RES for m in walk(x)):
+                    continue
+                facts = gf12.get(b["id"]) or frozenset()
+                if not any("sessionTicketState == %d" % LIMBO in t_ and tr_ for (t_, tr_) in facts):
+                    continue
+                n12 += 1
+                hs = None
+                for (t_, tr_) in facts:
+                    m = _re.fullmatch(r"\(?ssl->hsState == (\d+)\)?", t_)
+                    if m and tr_:
+                        hs = int(m.group(1))
+                G = set(facts)
+                seen, stack, reach = set(), list(starts), False
+                while stack:
+                    bid = stack.pop()
+                    if bid is None or bid in seen:
+                        continue
+                    seen.add(bid)
+                    if bid == b["id"]:
+                        reach = True
+                        break
+                    bb = bmap[bid]
+                    t2 = bb.get("term")
+                    if t2 and "c" in t2 and len(bb["succ"]) == 2 and t2.get("k") != "switch":
+                        for k, s_ in enumerate(bb["succ"]):
+                            ok = True
+                            for (tx, tr2, nd) in cu._cond_atoms(t2["c"], k == 0):
+                                d_ = decided(tx, tr2, G, hs)
+                                if d_ is False:
+                                    ok = False
+                                if "activeVersion" in tx and DTLSMASK is not None and _re.fullmatch(r"\(?ssl->activeVersion & %d\)?" % DTLSMASK, tx) and not tr2:
+                                    ok = False
+                            if ok:
+                                stack.append(s_["b"])
+                    else:
+                        for s_ in bb["succ"]:
+                            stack.append(s_["b"])
+                f12 = None
+                if not reach:
+                    f12 = Finding(PROP, "C16.R12", fn12.name, "ticket resumption arm unreachable under DTLS",
+                                  "%s:%s matrixSslDecodeTls12AndBelow(): the arm that turns the handshake into an abbreviated one when the "
+                                  "ChangeCipherSpec reveals an accepted ticket (hsState %s, ticket in limbo) cannot be reached from the "
+                                  "ChangeCipherSpec case when the active version is DTLS: a test in front of it sends exactly this state away "
+                                  "(`out of order`), the client keeps waiting for a Certificate and DTLS resumption with a ticket never "
+                                  "completes, even without loss" % (fn12.relfile, ln, hs), file=fn12.relfile, line=ln)
+                res.instance("C16.R12", "%s:%s limbo arm (hsState %s) reachable with the DTLS version test true" % (fn12.relfile, ln, hs), reach, finding=f12)
+    res.floor("C16.R12", 1 if (dl and prog.defined("USE_STATELESS_SESSION_TICKETS") and prog.defined("USE_DTLS")) else 0)
     return res.finish()
